@@ -193,7 +193,9 @@ func dateMachine(deep bool) *machine[date.Date] {
 	bins := []string{bin(2024, 2, 29), bin(1, 1, 1), bin(-44, 3, 15), "", "\x01", "\x02\x00\x00\x07\xe8\x02\x1d", "\x01\x00\x00\x07\xe8\x02", "\x01\x00\x00\x07\xe8\x02\x1d\x00", "\x01\x00\x00\x07\xe8\x0d\x20", "\x01\x00\x00\x07\xe7\x02\x1d", "\x01\x00\x00\x07\xe8\x00\x00", "\x00\x00\x00\x07\xe8\x02\x1d", "\x01\xff\xff\xff\xff\xff\xff"}
 	m.ops = append(m.ops, textOps("UnmarshalBinary", (*date.Date).UnmarshalBinary, bins)...)
 	t1 := time.Date(2020, 5, 17, 23, 59, 59, 0, time.FixedZone("e", 7200))
-	for _, src := range []any{t1, time.Date(1987, 6, 5, 0, 0, 0, 0, time.UTC), time.Time{}, time.Date(3000000000, 1, 2, 0, 0, 0, 0, time.UTC), time.Date(-3000000000, 1, 2, 0, 0, 0, 0, time.UTC), nil, "2020-01-01", []byte("2020-01-01"), int64(5), &t1, 3.5, date.New(2020, 1, 1)} {
+	for _, src := range []any{t1, time.Date(1987, 6, 5, 0, 0, 0, 0, time.UTC), time.Time{}, time.Date(3000000000, 1, 2, 0, 0, 0, 0, time.UTC), time.Date(-3000000000, 1, 2, 0, 0, 0, 0, time.UTC), nil, "2020-01-01", []byte("2020-01-01"), int64(5), &t1, 3.5, date.New(2020, 1, 1),
+		// what database drivers deliver for DATE / DATETIME columns when they do not convert: text with a time part, valid and broken
+		"2019-05-06 10:20:30", []byte("2019-05-06 10:20:30"), "2019-05-06 25:61:00", []byte("2019-05-06 25:61:00"), "2019-05-06T99:00:00Z", "2019-05-06 ", "2019-05-06x", "2019-02-30 00:00:00", "2018-07-08T01:02:03+02:00", []byte("2018-07-08Tgarbage"), "", []byte{}, (*time.Time)(nil), (*string)(nil)} {
 		src := src
 		m.ops = append(m.ops, op[date.Date]{name: fmt.Sprintf("Scan(%T %v)", src, src), apply: func(r *date.Date, _ []byte) error { return r.Scan(src) }})
 	}
